@@ -306,4 +306,12 @@ def k3(ctx, kr):
     kr.exhaustive = True
     kr.outside = ['several non-ASCII characters in a row; other contexts']
 
-KERNELS = [k1, k2, k3]
+# ---------------------------------------------------------------------------------------------- K4 long lexemes of multi-byte characters never crash the front end (= C04-K9)
+@kernel('K4 frontend.long_non_ascii_lexemes')
+def k4(ctx, kr):
+    """arbitrary byte content decodes to text with multi-byte characters anywhere, also in long comments, strings and runs of invalid characters: same kernel as C04-K9"""
+    from . import C04 as K04
+    K04.k9(ctx, kr)
+    for f in kr.findings: f.role = f.role.replace('C04/K9/', 'C14/K4/')
+
+KERNELS = [k1, k2, k3, k4]
